@@ -535,7 +535,7 @@ def known_findings(ev):
 # every --a argument before the main query runs, and hands the values over; a value must carry (or keep alive)
 # everything it needs.  X is the --a expression, P the program that uses its values; `--a X -e P` = `-e "X P"`.
 OUTLIVE_MAKERS = ["{|A| A 1 add}", "{|A| {|B| A B add}}", "let K := 7; {|A| K A add}", "{|A| [A, {A 2 mul}]}", "({|A| A}, {|A| A A mul})",
-                  "let G := {|A| A 2 mul}; {|B| B G 1 add}", "[{|A| A 1 add}, {|A| A 10 add}]", "{|A| A (1 add)* (pos < 3)}", "{|A| \"<%( A %)>\"}",
+                  "let G := {|A| A 2 mul}; {|B| B G 1 add}", "[{|A| A 1 add}, {|A| A 10 add}]", "{|A| A (1 add 5 mod)*}", "{|A| \"<%( A %)>\"}",
                   "let S := \"abc\"; {|A| S length A add}", "{|A| if (A > 2) then {A 1 sub} else {A 100 add}}", "{|A| let B := A 1 add; {|C| A B C add add}}",
                   "[1, 2, 3]", "\"str\"", "{}", "{|A| }", "let M := [5, 6]; {|A| M elem A add}", "{|F| 3 F}"]
 OUTLIVE_USERS = ["(|F| 41 F)", "(|F| 5 F (|G| 10 G))", "(|F| 3 F elem)", "(|F| F elem (|G| 4 G))", "(|F| [1 F, 2 F])", "(|F| 2 F (|R| R))", "(|F| (1, 2, 3) F)",
